@@ -6,12 +6,12 @@
 /// Check for `assertion`: ""float draw satisfies start <= x < end""
 
 #[test]
-fn kani_concrete_playback_c14_f64_range_moderate_9786399939476842362() {
+fn kani_concrete_playback_c14_f64_range_moderate_6699874719628592291() {
     let concrete_vals: Vec<Vec<u8>> = vec![
-        // -2
-        vec![255, 255, 255, 255, 255, 255, 255, 191],
-        // 2
-        vec![255, 255, 255, 255, 255, 255, 255, 63],
+        // -5.982592e-8
+        vec![0, 0, 0, 192, 52, 15, 112, 190],
+        // 256
+        vec![150, 225, 223, 255, 255, 255, 111, 64],
         // 18446744073709551615ul
         vec![255, 255, 255, 255, 255, 255, 255, 255],
     ];
